@@ -38,6 +38,8 @@ TABLE_OBLIGATIONS = [
     "Ural.Props.C12.serialized_lru_splitter_pattern",
     "Ural.Props.C12.port_splitter_probes",
     "Ural.Props.C12.serialized_lru_splitter_probes",
+    "Ural.Props.C12.protocol_re_pattern",
+    "Ural.Props.C12.urllib_uses_netloc",
 ]
 RULE = (
     "A case is a URL string with the suffix_aware modes to run it in (both, for the corpus and the grammar). The stream is: the regression corpus (IPv6 with port, "
@@ -55,6 +57,15 @@ RULE = (
     "ural.lru.conversion.urlunsplit), final URL string (from stems and from the string), CPython "
     ".hostname, and the same verdicts of the specification predicates (wf, no-bar, "
     "grammar host/port, expected round-trip tuple) as an independent Python implementation. "
+    "String-level tie (the parser inside the model): on EVERY URL of the stream whose ensure_protocol(url) is "
+    "inside the stated domain of the parser model (urlrt.outside_model, decided from CPython's answer; the "
+    "withheld ones are counted) the model's own urlsplit + .username/.password/.hostname/.port run on "
+    "ensure_protocol(url) and on every lru_to_url(url_to_lru(url)) result and must agree with CPython "
+    "(op parse_url), and the composed pipeline of Model/LruUrl.lean (op lru_url: urlsplit(ensure_protocol(u)), "
+    "lru_stems(u), url_to_lru(u), lru_to_url of it, urlsplit of that, url_to_lru of that, ValueError included, "
+    "and membership of the class `inClass` of the string-level theorems) must agree with the real functions "
+    "and with an independent Python reading of the class. The distribution counts the evaluations inside the "
+    "proved class (string-class:inside) and, outside, the clause that fails. "
     "Non-trivial = the URL has no '|', urlsplit accepts it and it is inside the grammar (wf); "
     "distinct = distinct (URL, modes)."
 )
@@ -66,19 +77,28 @@ TRUSTED = [
     "Lean 4 kernel; axioms of every listed theorem audited to be within {propext, Classical.choice, Quot.sound}",
     "hand-written Lean model UralModel/Model/Lru.lean of ural/lru/{stems,serialization,conversion}.py (+ is_special_host), tied to the code by differential execution on every run (stems, LRU string, unserialized list, the 5-tuple handed to urlunsplit, the final URL)",
     "the two regexes are modelled by hand-written splitters; their pattern strings and the verdicts of the compiled regexes on a probe list are regenerated into Gen/LruPatterns.lean and re-checked by `decide` (table obligations), and the splitters are compared with re.split on every generated string",
-    "CPython: urlsplit is outside the model (the model starts from the 5 components it returns); the theorems end at the 5-tuple handed to urlunsplit. The last step 'urlsplit(urlunsplit(t)) has the components of t' is a CPython fact, validated on every case by the oracle (real urlsplit of the real lru_to_url output) but not proved; urlunsplit and SplitResult.hostname are modelled by hand (Py/Split.lean) and compared with CPython on every case",
+    "CPython's urlsplit / SplitResult accessors / urlunsplit are hand-written Lean models (Py/UrlSplit.lean, Py/UrlAccessors.lean, Py/Split.lean) — compared with CPython 3.12 on every URL of the stream and on every round-trip result (ops parse_url, lru_url, urlunsplit), NOT proved equal to it; stated restrictions of the parser model: str.lower is ASCII lower-casing, _checknetloc (NFKC) is not modelled, _check_bracketed_host is approximated (no IPv4 tail inside an IPv6 literal: such URLs are rejected by the model, hence outside the string-level class, and withheld from the string-level tie); ensure_protocol is the model UrlParts.ensureProtocol (PROTOCOL_RE hand-matched; table obligations protocol_re_pattern, urllib_uses_netloc)",
     "ASCII-exact model: str.lower and \\d are modelled on ASCII only; generators use non-ASCII characters on which lower() is the identity and no non-ASCII digits",
     "split_suffix (public-suffix trie, property C08) is an abstract parameter of the model; the driver uses the answer of the real split_suffix shipped with each case",
 ]
 ASSUMPTIONS = [
-    "C08 clause used as hypothesis (SplitRejoins): when split_suffix(url) is not None its two parts re-join to the lower-cased urlsplit(url).hostname; checked on every in-grammar case of this run (it fails exactly for hosts with a trailing dot, which are outside the suffix-aware reading)",
+    "C08 clause used as hypothesis (SplitRejoins / SplitRejoinsUrl): when split_suffix(url) is not None its two parts re-join to the lower-cased urlsplit(url).hostname; checked on every in-grammar case of this run (it fails exactly for hosts with a trailing dot, which are outside the suffix-aware reading). The string-level class additionally reads off the real split_suffix answer 'None on a bracketed literal' (true for pure IPv6 by is_special_host — proved —, for embedded IPv4 because no public suffix is a number; false for zone ids / IPvFuture texts ending with a public suffix: KF-C12-1)",
     "reading: the suffix-aware clause is demanded for hosts without empty label (DESIGN D35) and without '%'; userinfo/host without raw '@', port without ':' (the grammar); empty and absent user/password identified",
 ]
 UNPROVED = (
-    "urlsplit(renderParts t) = t (CPython, validated by the oracle on every case, not proved); "
-    "suffix-aware round trip for bracketed hosts that are not pure hex/colon (embedded IPv4, zone id) "
-    "relies on the hypothesis SplitRejoins' being discharged by is_special_host only for pure IPv6 "
-    "literals: those shapes are covered by correspondence + oracle only"
+    "The parser hypothesis is discharged: roundtrip_string_partial / accessors_string_partial / serialization_string are "
+    "about URL STRINGS with the modelled parser in the loop (urlsplit(urlunsplit t) = t is now the theorem "
+    "UrlRoundTrip.urlsplit_urlunsplit20 applied to the components lru_to_url prints). What remains: "
+    "(1) the Lean parser is compared with CPython on every case, not proved equal to it; "
+    "(2) the round trip is proved on the class inClass = {u : the parser accepts ensure_protocol(u); no '|'; netloc in the "
+    "grammar wfNetloc; a host; no raw '[' ']' in the userinfo; suffix-aware: no '%' in a plain host, split_suffix is None "
+    "on a bracketed literal}. Outside it: no host / netloc outside the grammar / bracketed literal with a suffix really fail "
+    "(fullRoundtripString_false, examples, KF-C12-1); a malformed authority raises ValueError; for a raw bracket in the "
+    "userinfo (needs the bracket check of urlsplit to survive the removal of an empty password) and '%' in a plain "
+    "suffix-aware host (needs split_suffix(h) = split_suffix(lower h), not part of C08's clause) no failing input is "
+    "known: those two regions are covered by correspondence + oracle only; "
+    "(3) embedded-IPv4 literals are covered at component level (splitLaw_of_class, relru_fixed_class, roundtrip_parts) "
+    "but not at string level: the parser model rejects them (stated restriction of Py/UrlSplit.lean)"
 )
 
 # --------------------------------------------------------------------------------------
